@@ -125,7 +125,7 @@ fn status_rank(s: Option<QueryStatus>) -> u8 {
 
 harness! {
     #[kani::unwind(6)]
-    fn t18_store_history() {
+    fn x18_store_history() {
         // symbolic history of 2 store operations on one RunningQueries:
         //  0..=3: set_state(target), 4: remove_query_on_drop + drop, 5: remove_query_on_drop + restore
         let queries = RunningQueries::default();
